@@ -511,3 +511,128 @@ def cleanup_scripts(jobs):
                     os.unlink(x[3:])
                 except OSError:
                     pass
+
+
+# ---------------------------------------------------------------------------
+# FINE model stage (LLFree.tla): exhaustive TLC + step conformance + counterexample replay
+# ---------------------------------------------------------------------------
+FINE_QUICK = {"th4": ["L1", "L2", "L3", "L4", "L5", "L5b", "L6", "L8", "U1", "U2", "U7"], "th1": ["U4", "U5", "U5b", "L7"]}
+FINE_THOROUGH = {"th4": ["L1", "L1b", "L2", "L2b", "L3", "L3b", "L4", "L5", "L5b", "L6", "L7", "L8", "U1", "U2", "U3", "U7"],
+                 "th1": ["L1", "L2", "L5", "L6", "L8", "U1", "U2", "U4", "U5", "U5b", "U7", "U8"],
+                 "th2": ["L1", "L2", "L3", "L4", "L5", "L6", "L7", "L8", "U1", "U2", "U7"]}
+FINE_INVS = {"C01": ["NoOverlap", "HeldAllocated"], "C03": ["NoPanic", "PutsOk"], "C04": ["QuiescentAccounting", "CounterBound"],
+             "C05": ["CrashConsistent", "HeldAllocated"], "C09": ["NoPanic"]}
+
+
+def fine_schedule(out):
+    """access schedule (thread per access) of a TLC error trace"""
+    import re
+    sched, last = [], 0
+    for m in re.finditer(r"lastop = \[ *seq \|-> (\d+),\s*t \|-> (-?\d+)", out):
+        seq, t = int(m.group(1)), int(m.group(2))
+        if seq > last:
+            sched.append(t)
+            last = seq
+    return sched
+
+
+def fine_stage(res, tier, seed, prop):
+    import re, mkmc, fineconf
+    from concurrent.futures import ThreadPoolExecutor
+    plan = FINE_QUICK if tier == "quick" else FINE_THOROUGH
+    invs = FINE_INVS.get(prop, ["NoOverlap", "NoPanic"])
+    work = [(g, n) for g, ns in plan.items() for n in ns]
+    fine = {"scenarios": 0, "states": 0, "generated": 0, "conforming_sequences": 0, "drift": [], "violations_replayed": []}
+
+    def one(gn):
+        g, n = gn
+        mod = mkmc.make(n, g, invariants=invs)
+        if not mod:
+            return None
+        rc, out, dt = vlib.tlc(mod, workers=4, xmx="8g", timeout=3000 if tier == "quick" else 20000)
+        gen, dist = vlib.tlc_stats(out)
+        r = {"scn": n, "geo": g, "states": dist, "generated": gen, "s": round(dt, 1), "result": "ok"}
+        err = re.search(r"Invariant (\w+) is violated", out)
+        if err:
+            r["result"] = "violated:" + err.group(1)
+            r["sched"] = fine_schedule(out)
+        elif "No error has been found" not in out:
+            r["result"] = "error"
+            r["detail"] = out[-800:]
+        # step conformance of the real code against the model
+        c = fineconf.conform(g, n, bound=1 if tier == "quick" else 2, limit=150 if tier == "quick" else 2000)
+        r["conf"] = c
+        return r
+
+    with ThreadPoolExecutor(max_workers=4) as ex:
+        rs = [r for r in ex.map(one, work) if r]
+    for r in rs:
+        fine["scenarios"] += 1
+        fine["states"] += r["states"]
+        fine["generated"] += r["generated"]
+        c = r["conf"]
+        if c.get("status") == "conforms":
+            fine["conforming_sequences"] += c["sequences"]
+        elif c.get("status") == "drift":
+            fine["drift"].append({"scn": r["scn"], "geo": r["geo"], "event": c.get("event"), "at": c.get("at")})
+            log("MODEL-DRIFT: scenario %s (%s): the FINE model no longer describes the code at access %s: %s"
+                % (r["scn"], r["geo"], c.get("at"), c.get("event")))
+        elif c.get("status") == "error":
+            raise vlib.ToolError("step conformance failed for %s: %s" % (r["scn"], c.get("detail")))
+        if r["result"] == "error":
+            raise vlib.ToolError("FINE model check failed for %s/%s:\n%s" % (r["scn"], r["geo"], r.get("detail")))
+        if r["result"].startswith("violated"):
+            # a design-level counterexample is believed only if it replays on the real code
+            sched = ",".join(map(str, r["sched"]))
+            out = os.path.join(vlib.WORK, "fine-replay-%s-%s-%d.ndjson" % (r["scn"], r["geo"], os.getpid()))
+            vlib.harness(r["geo"], ["conc", "scn=" + SCN, "name=" + r["scn"], "asched=" + sched, "out=" + out, "props=" + prop])
+            v = vlib.validate_file(out, [prop])
+            os.unlink(out)
+            mine = [f for f in v["failures"] if f["prop"] == prop]
+            fine["violations_replayed"].append({"scn": r["scn"], "geo": r["geo"], "invariant": r["result"],
+                                                "reproduced_on_code": bool(mine), "schedule": r["sched"][:80]})
+            if mine:
+                for f in mine:
+                    f["detail"] = {"fine_invariant": r["result"], "access_schedule": r["sched"]}
+                res.add_failures(mine)
+            else:
+                log("MODEL-DRIFT: FINE invariant %s fails in scenario %s (%s) but the schedule does not violate %s on the "
+                    "real code: the model is stale" % (r["result"], r["scn"], r["geo"], prop))
+                fine["drift"].append({"scn": r["scn"], "geo": r["geo"], "event": "counterexample not reproducible"})
+    res.cov["states"] += fine["states"]
+    res.cov["transitions"] += fine["generated"]
+    res.cov["fine_model"] = fine
+    res.cov["fine_invariants"] = invs
+    res.notes.append("FINE model LLFree.tla: %d scenarios exhaustively model-checked (%d distinct states), invariants %s; "
+                     "%d access sequences of the real code conform step by step; drift: %d"
+                     % (fine["scenarios"], fine["states"], invs, fine["conforming_sequences"], len(fine["drift"])))
+    return fine
+
+
+_old_check_conc = check_conc
+
+
+def check_conc_fine(prop, tier, seed):
+    res = _old_check_conc(prop, tier, seed)
+    if prop in FINE_INVS and not vlib.STOP.is_set():
+        fine_stage(res, tier, seed, prop)
+        res.cov["rule"] += ("; plus the FINE model (spec/LLFree.tla, one label per atomic access, real geometry): TLC explores "
+                            "ALL interleavings of the 2-thread scenarios (quick) / 2-3-thread scenarios (thorough) with the "
+                            "invariants listed under fine_invariants, the real code's access sequences are checked to be "
+                            "behaviours of that model (step conformance), and a model counterexample is replayed on the code")
+    return res
+
+
+for p in ("C01", "C03", "C04", "C13"):
+    PLANS[p] = check_conc_fine
+_old_c05 = check_c05
+
+
+def check_c05_fine(prop, tier, seed):
+    res = _old_c05(prop, tier, seed)
+    if not vlib.STOP.is_set():
+        fine_stage(res, tier, seed, prop)
+    return res
+
+
+PLANS["C05"] = check_c05_fine
